@@ -37,6 +37,10 @@ type Scenario struct {
 	Evidence  bool // forge double-sign evidences with positive penalties
 	ZeroSlash bool // forge a double-sign evidence against a validator whose 2% penalty rounds to zero
 	Busy      int  // percentage of big blocks
+	// NegRecord lets the generator submit the sequence "validator withdraw/deposit, then a larger
+	// delegation sub to the same validator in the same period", which drives the validator-total
+	// pending record negative (a known way to wreck the block; most chains avoid it to get further).
+	NegRecord bool
 }
 
 func dust(r *rand.Rand) *big.Int {
@@ -116,6 +120,7 @@ func PickScenario(r *rand.Rand, blocks int) *Scenario {
 		sc.Pool = env.YOU(1000000)
 	}
 	sc.Evidence = r.Intn(2) == 0
+	sc.NegRecord = r.Intn(5) == 0
 	if r.Intn(5) == 0 {
 		sc.Busy = 30
 	}
@@ -160,6 +165,9 @@ type World struct {
 	nextVal    int
 	lastNewVal int
 	hub        common.Address
+	subbed     map[common.Address]*big.Int
+	subbedAt   *state.StateDB
+	touched    map[common.Address]bool // validators with a withdraw/deposit generated in the current block
 	fresh      int
 }
 
